@@ -90,6 +90,12 @@ CLAIMED["C13"] = dict(text="Metamorphic bounded symbolic model checking: the rea
                   "histories of other calls in the same process; outputs are compared canonically / byte-wise.",
              design="DESIGN.md 4/C13", technique="symbolic execution of the real Python code with z3 (symx); selector-driven metamorphic comparison, real files for the history condition",
              note="no oracle is needed (the code is compared with itself); residue graphs of <= 3 (quick) / 4 (thorough) residues; histories of <= 2 preceding runs; hash randomisation across processes is outside. " + NOTE_COMMON)
+CLAIMED["C08"] = dict(text="Metamorphic bounded symbolic model checking of the real topology reader: a .top assembled from k solver-chosen lines (defines, conditionals, "
+                  "includes of a nested include tree, #error, comments, an inline moleculetype, a guarded type entry) and a solver-chosen [ molecules ] list is read "
+                  "from real files; an independent preprocessor flattens it and the same reader reads the result; all parsed tables, blocks, the expanded molecule "
+                  "list, instance independence, #error and malformed-nesting behaviour are compared.",
+             design="DESIGN.md 4/C08", technique="symbolic execution of the real Python code with z3 (symx): selector-driven line sequences, real files in a per-path temp dir, independent flattening oracle",
+             note="k <= 3 (quick) / 4 (thorough) free lines over a 13-17 entry alphabet; #define inside conditionals, nested conditionals, macros with values and data lines continuing a section across an include are outside. " + NOTE_COMMON)
 NOT_YET = {}
 def main():
     props = [json.loads(l) for l in open(os.path.join(ROOT, "properties.jsonl"))]
